@@ -95,7 +95,7 @@ func busWrite(s *emulator.System, a uint32, v byte) (served bool) {
 
 // C11: exhaustive toggle/write sweep of the emulated System's bus against the LoROM mapper.
 func C11(r *vf.Run) {
-	r.Rule = "all 2^24 bus addresses: where the emulator serves the address and lorom.BusAddressToPak maps it, a read must follow the designated ROM/SRAM/WRAM cell through two different values (toggle test) and a write must change exactly that cell (full shadow diff of the three arrays after every bank); thorough repeats with three fills and in descending order; plus random-order sequences mixing EaRead, EaWrite and EaRead24_wrap with block locality; a cell is (memory class, bank group, read|write)"
+	r.Rule = "all 2^24 bus addresses: where the emulator serves the address and lorom.BusAddressToPak maps it, a read must follow the designated ROM/SRAM/WRAM cell through two different values (toggle test) and a write must change exactly that cell (full shadow diff of the three arrays after every bank); thorough repeats with three fills and in descending order; plus random-order sequences mixing EaRead, EaWrite and EaRead24_wrap with block locality; plus long-lived Systems whose host re-attaches its own handlers over register-area windows 67,000+ times with the map re-verified after every Attach; a cell is (memory class, bank group, read|write)"
 	r.Exhaustive = true
 	r.Assume = []string{"an address is 'served' when System.Bus.EaRead does not panic", "arrays are filled before CreateEmulator; the cartridge-header bytes ($xxFFD0-$FFDF) take the values 0..15 across workers", "SRAM cells beyond len(System.SRAM) do not exist; such addresses are judged only if the emulator serves them"}
 
@@ -323,7 +323,122 @@ func C11(r *vf.Run) {
 	r.Sample(map[string]interface{}{"bus": "$808000", "pak": "$000000", "expect": "System.ROM[0]"})
 	r.Sample(map[string]interface{}{"bus": "$f00000", "pak": "$e00000", "expect": "System.SRAM[0]"})
 	r.Sample(map[string]interface{}{"bus": "$001fff", "pak": "$f51fff", "expect": "System.WRAM[0x1fff]"})
+	if r.Phase("long-lived-system") {
+		// one System that lives long: the host keeps swapping its own handler over windows of
+		// the register area (which the mapper assigns to no memory class), tens of thousands of Attach calls in all; the
+		// ROM/SRAM/WRAM map must stay the mapper's throughout
+		nsys := r.N(2, 8)
+		total := r.N(67000, 200000)
+		r.Parallel(workers, nsys, func(w, si int) {
+			g := r.Rand("longsys").Fork(uint64(si))
+			h, err := newSysShadow(g, si%12)
+			if err != nil {
+				r.Fail("create-emulator", err.Error(), nil)
+				return
+			}
+			cells := map[string]int64{}
+			// 16-byte blocks of the register area, which the mapper assigns to no memory class
+			var free []uint32
+			for _, bank := range []uint32{0x00, 0x01, 0x21, 0x3F, 0x80, 0xBF} {
+				for off := uint32(0x2000); off < 0x6000; off += 16 {
+					if _, err := lorom.BusAddressToPak(bank<<16 | off); err != nil {
+						free = append(free, (bank<<16|off)>>4)
+					}
+				}
+			}
+			if len(free) < 64 {
+				r.Inconclusive("no mapper-unassigned window found in the register area for host handlers")
+				return
+			}
+			pick := func() uint32 {
+				for {
+					var a uint32
+					switch g.Intn(6) {
+					case 0:
+						a = uint32(g.Intn(0x40))<<16 | uint32(g.Intn(0x2000))
+					case 1:
+						a = 0x7E0000 + uint32(g.Intn(0x20000))
+					case 2:
+						a = uint32(0x70+g.Intn(2))<<16 | uint32(g.Intn(0x8000))
+					case 3:
+						a = uint32(0x80+g.Intn(0x40))<<16 | uint32(0x8000+g.Intn(0x8000))
+					case 4:
+						a = uint32(g.Intn(4))<<16 | 0x8000 | uint32(g.Intn(0x40)) // the regions attached first
+					default:
+						a = uint32(g.Intn(0x40))<<16 | uint32(0x8000+g.Intn(0x8000))
+					}
+					if _, err := lorom.BusAddressToPak(a); err == nil {
+						return a
+					}
+				}
+			}
+			served := map[uint32]bool{}
+			var addrs []uint32
+			for len(addrs) < 512 {
+				a := pick()
+				if _, ok := busRead(h.s, a); ok {
+					addrs = append(addrs, a)
+					served[a] = true
+				}
+			}
+			verify := func(n int, k int) bool {
+				for i := 0; i < k; i++ {
+					a := addrs[g.Intn(len(addrs))]
+					p, _ := lorom.BusAddressToPak(a)
+					cls, live, shadow, idx, ok := h.cell(p)
+					if !ok {
+						continue
+					}
+					v, sv := busRead(h.s, a)
+					r.Eval(1)
+					if !sv || v != live[idx] {
+						r.Fail("long-lived-read-"+cls, fmt.Sprintf("after %d host Attach calls on one System: EaRead($%06x)=(%02x, served=%v) but %s[$%x]=%02x", n, a, v, sv, cls, idx, live[idx]), nil)
+						return false
+					}
+					if cls != "rom" || g.Intn(4) == 0 {
+						nv := live[idx] ^ byte(1+g.Intn(255))
+						busWrite(h.s, a, nv)
+						if live[idx] != nv {
+							r.Fail("long-lived-write-"+cls, fmt.Sprintf("after %d host Attach calls on one System: EaWrite($%06x,%02x) left %s[$%x]=%02x", n, a, nv, cls, idx, live[idx]), nil)
+							return false
+						}
+						shadow[idx] = nv
+					}
+					cells["long:"+cls]++
+				}
+				return true
+			}
+			for n := 1; n <= total && !r.TooMany(); n++ {
+				sb := free[g.Intn(len(free))]
+				f := &fakeMem{id: n}
+				if err := h.s.Bus.Attach(f, "host", sb<<4, sb<<4|15); err != nil {
+					cells["long:attach-refused"]++
+					continue
+				}
+				// the handler just attached answers in its window
+				if v, ok := busRead(h.s, sb<<4|3); !ok || v != fakeVal(n, sb<<4|3) {
+					cells["long:host-window-not-routed"]++ // C13's concern, counted here
+				}
+				k := 1
+				if n%4096 == 0 || n == total {
+					k = 512
+				}
+				if !verify(n, k) {
+					break
+				}
+				if n%16384 == 0 || n == total {
+					if d := h.diff(); d != "" {
+						r.Fail("long-lived-stray-write", fmt.Sprintf("after %d host Attach calls on one System: a cell other than the designated ones changed: %s", n, d), nil)
+						break
+					}
+					cells[fmt.Sprintf("long:attach-count-%dk", n/1024)]++
+				}
+			}
+			r.MergeCells(cells)
+		})
+	}
 	if r.OnlyPhase == "" {
+		r.Require("long:attach-count-64k")
 		for _, c := range []string{"read:rom:00", "read:rom:80", "read:rom:b0", "read:sram:70", "read:sram:f0", "read:wram:70", "read:wram:00", "read:wram:80", "write:rom:30", "write:sram:f0", "write:wram:70", "inter:read24", "inter:read:wram", "inter:write:rom", "inter:read:sram"} {
 			r.Require(c)
 		}
